@@ -76,7 +76,44 @@ type Val struct {
 	D    Z      `json:"d"`
 	C    string `json:"c"`
 	Id   string `json:"id"`
-	Bits uint64 `json:"-"`
+	Bits []int  `json:"bits,omitempty"` // floats: the 16 hex digits of the IEEE-754 bit pattern
+}
+
+// HexDigits splits a bit pattern into 16 hex digits, most significant first.
+func HexDigits(b uint64) []int {
+	out := make([]int, 16)
+	for i := 15; i >= 0; i-- {
+		out[i] = int(b & 15)
+		b >>= 4
+	}
+	return out
+}
+
+// FromHex is the inverse of HexDigits.
+func FromHex(d []int) uint64 {
+	var b uint64
+	for _, x := range d {
+		b = b<<4 | uint64(x&15)
+	}
+	return b
+}
+
+// F64 is the float an argument of kind "f" stands for (from its bits, else from its name).
+func (v Val) F64() float64 {
+	if len(v.Bits) == 16 {
+		return math.Float64frombits(FromHex(v.Bits))
+	}
+	switch v.Id {
+	case "+Inf":
+		return math.Inf(1)
+	case "-Inf":
+		return math.Inf(-1)
+	case "NaN":
+		return math.NaN()
+	}
+	var f float64
+	fmt.Sscanf(v.Id, "%g", &f)
+	return f
 }
 
 func Exact(r *big.Rat) Val { return Val{K: "x", N: NewZ(r.Num()), D: NewZ(r.Denom())} }
@@ -95,7 +132,7 @@ func FloatClass(f float64) string {
 }
 
 func Float(f float64) Val {
-	return Val{K: "f", N: ZInt(0), D: ZInt(1), C: FloatClass(f), Id: FloatText(f), Bits: math.Float64bits(f)}
+	return Val{K: "f", N: ZInt(0), D: ZInt(1), C: FloatClass(f), Id: FloatText(f), Bits: HexDigits(math.Float64bits(f))}
 }
 
 // FloatText is a spelling of f that `num` reads back to the same bit pattern (NaN: any NaN).
@@ -120,6 +157,9 @@ func (v Val) Rat() *big.Rat { return new(big.Rat).SetFrac(&v.N.Int, &v.D.Int) }
 // Text is the string representation of the value (what `num` parses).
 func (v Val) Text() string {
 	if v.K == "f" {
+		if len(v.Bits) == 16 {
+			return FloatText(v.F64())
+		}
 		return v.Id
 	}
 	if v.D.IsInt64() && v.D.Int64() == 1 {
@@ -135,7 +175,25 @@ func (v Val) Typed() string { return "(num " + v.Text() + ")" }
 // +I, -I (big integer), +r, -r (non-integral), f:<class>.
 func (v Val) Sig() string {
 	if v.K == "f" {
-		return "f:" + v.C
+		if len(v.Bits) != 16 {
+			return "f:" + v.C
+		}
+		f := v.F64()
+		sg := "+"
+		if math.Signbit(f) {
+			sg = "-"
+		}
+		switch {
+		case math.IsNaN(f):
+			return "f:nan"
+		case math.IsInf(f, 0):
+			return "f:" + sg + "inf"
+		case f == 0:
+			return "f:" + sg + "0"
+		case math.Abs(f) < 2.2250738585072014e-308:
+			return "f:" + sg + "sub"
+		}
+		return "f:" + sg + "fin"
 	}
 	if v.N.Sign() == 0 {
 		return "0"
